@@ -90,7 +90,17 @@ Catalog == <<
           \* a re-sent block is governed by ONE %rewrite rule: rows of different rules are emitted in rule-text order, which an
           \* order-sensitive block cannot absorb (observation recorded in DESIGN.md)
           Rew(Plain(<<T("r"), ST>>, << << <<"r","1">>, <<"r","1","v1">> >>, << <<"r","2">> >>, << <<"r","3">> >> >>, <<>>)) >>),
-      Plain(<<T("a"), ST>>, << << <<"a","1">> >> >>, <<>>) >>]
+      Plain(<<T("a"), ST>>, << << <<"a","1">> >> >>, <<>>) >>],
+  [name |-> "overlap", rules |-> <<                \* one row described by a specific and by a general rule: their children rules unite
+      Plain(<<T("blk"), T("1")>>, << << <<"blk","1">> >> >>, <<
+          Plain(<<T("x"), ST>>, << << <<"x","1">> >>, << <<"x","2">> >> >>, <<>>) >>),
+      Plain(<<T("blk"), ST>>, << << <<"blk","2">> >> >>, <<
+          Plain(<<T("y")>>, << << <<"y">>, <<"y","w">> >> >>, <<>>) >>) >>],
+  [name |-> "rewrite-deep", rules |-> <<           \* a %rewrite rule over blocks: a change three levels down re-sends the whole block
+      Plain(<<T("rd"), ST>>, << << <<"rd","1">> >> >>, <<
+          Rew(Plain(<<T("r"), ST>>, << << <<"r","1">> >>, << <<"r","2">> >> >>, <<
+              Plain(<<T("c"), ST>>, << << <<"c","1">> >> >>, <<
+                  Plain(<<T("g"), ST>>, << << <<"g","1">> >>, << <<"g","2">> >> >>, <<>>) >>) >>)) >>) >>]
 >>
 
 (* ------------------------------ Configs(R) ------------------------------ *)
@@ -100,10 +110,10 @@ Perms(s) == IF Len(s) <= 1 THEN {s}
             ELSE UNION { {<<s[i]>> \o p : p \in Perms(DropAt(s, {i}))} : i \in DOMAIN s }
 RECURSIVE Level(_, _)
 GroupOpts(rule, group, loc, glo) ==
-  {<<>>} \cup { <<[row |-> group[v], kids |-> kd]>> :
-                v \in DOMAIN group,
-                kd \in (IF rule.glob \/ Len(group) > 1 THEN {<<>>} ELSE   \* value-carrying rows are leaves (block headers are key-determined);      \* instances of %global rules are leaves here
-                        IF rule.kids = <<>> /\ InheritDown(loc, glo) = <<>> THEN {<<>>} ELSE Level(rule.kids, InheritDown(loc, glo))) }
+  LET KidOpts(row) == IF rule.glob \/ Len(group) > 1 THEN {<<>>}     \* value-carrying rows and instances of %global rules are leaves here
+                      ELSE LET kr == KidRules(Visible(loc, glo), row) IN      \* (block headers are key-determined)
+                           IF kr = <<>> /\ InheritDown(loc, glo) = <<>> THEN {<<>>} ELSE Level(kr, InheritDown(loc, glo))
+  IN {<<>>} \cup UNION { { <<[row |-> group[v], kids |-> kd]>> : kd \in KidOpts(group[v]) } : v \in DOMAIN group }
 RECURSIVE GroupsOpts(_, _, _, _)
 GroupsOpts(rule, groups, loc, glo) ==
   IF groups = <<>> THEN {<<>>} ELSE Cat(GroupOpts(rule, Head(groups), loc, glo), GroupsOpts(rule, Tail(groups), loc, glo))
